@@ -38,7 +38,7 @@ def reference_encodings(mod, t, v, rng, n):
     nodes = ext_seq_nodes(mod, t)
     if nodes and (b is not None or o is not None):
         for _ in range(min(n, 2)):
-            extra = {id(x): rng.choice([1, 1, 2, 3, 7]) for x in nodes if rng.random() < 0.7}
+            extra = {id(x): rng.choice([1, 1, 2, 3, 7, (0, 1), (1, 0, 1), (0, 0, 1, 1), (1, 0, 0, 0, 0, 0, 0, 1)]) for x in nodes if rng.random() < 0.7}
             if not extra:
                 continue
             if b is not None:
